@@ -447,6 +447,7 @@ def run_property(pid, tier, seed, jobs=None, budget_s=None, runs=None, out=sys.s
             name = "%s-%d-%d-%s%s.json" % (pid, seed, first["origin"]["run_index"],
                                            derive_seed(*sig) % 100000, tag)
             path = os.path.join(REPLAY_DIR, name)
+            os.makedirs(REPLAY_DIR, exist_ok=True)
             with open(path, "w") as f:
                 json.dump(small, f, indent=1, sort_keys=True, default=str)
             # verify in a fresh interpreter
